@@ -23,7 +23,8 @@ _COV_ON = False
 _TOOL = 3
 
 
-def cov_start(root="/repo/selfies"):
+def cov_start(root=None):
+    root = root or os.path.join(os.environ.get("VERIF_REPO", "/repo"), "selfies")
     global _COV_ON
     if _COV_ON:
         return
